@@ -341,3 +341,31 @@ try:   # names of the repository's enums / classes that contracts mention
                   'KFACEigenLayer': KFACEigenLayer, 'KFACInverseLayer': KFACInverseLayer, 'torch': _torch})
 except ImportError:
     pass
+
+
+def _second_order_consistent(layer, damping):
+    """Executable oracle (bounded clauses only): the second-order data a layer holds is what its current
+    factors and the given damping produce.  Compared with a float64 recomputation at a loose tolerance."""
+    import torch
+    A, G = layer.a_factor, layer.g_factor
+    if A is None or G is None:
+        return True
+
+    def close(x, y):
+        return torch.allclose(x.double(), y.double(), rtol=1e-3, atol=1e-5)
+    if hasattr(layer, '_a_inv'):
+        if layer.a_inv is None or layer.g_inv is None:
+            return False
+        ia = torch.linalg.inv(A.double() + damping * torch.eye(A.shape[0], dtype=torch.float64))
+        ig = torch.linalg.inv(G.double() + damping * torch.eye(G.shape[0], dtype=torch.float64))
+        return close(layer.a_inv, ia) and close(layer.g_inv, ig)
+    if layer.qa is None or layer.qg is None:
+        return False
+    da = torch.clamp(torch.linalg.eigvalsh(A.double()), min=0.0)
+    dg = torch.clamp(torch.linalg.eigvalsh(G.double()), min=0.0)
+    if layer.prediv_eigenvalues:
+        return layer.dgda is not None and close(layer.dgda, 1 / (torch.outer(dg, da) + damping))
+    return layer.da is not None and layer.dg is not None and close(layer.da, da) and close(layer.dg, dg)
+
+
+FUNCS['second_order_consistent'] = _second_order_consistent
